@@ -153,6 +153,16 @@ class Run:
                          more_logs=[(b, g.ALWAYS, ["n"]) for b in BASES[1:len(self.logs)]])
         for k, log in enumerate(w.logs):
             self.instrument(log, k)
+        fs = self.fs
+        logger_flush = w.logger.flush
+
+        def flush_all():
+            was_open = [bool(log.file and not log.file.closed) for log in w.logs]
+            logger_flush()
+            for k, o in enumerate(was_open):
+                if o:
+                    fs.mark("flushed", log=k, by="Logger.flush")    # 'Flush all log files'
+        w.logger.flush = flush_all
         return w
 
     def instrument(self, log, k):
@@ -441,8 +451,8 @@ def run():
         "durability model: create/rename/remove/truncate-on-open/mkdir are atomic and durable in program order; file data is durable only "
         "after os.fsync; at a crash a file keeps its durable bytes plus any prefix (cut at any byte) of the bytes appended since, "
         "whether they were still in the Python buffer or already flushed to the OS",
-        "'the most recent flush' is the most recent return of Log.flush() or Log.close() on an open file (Logger.flush and Log.cycle go "
-        "through them; Logger docstring: STOP 'closes log files needed to flush caches', Log.close: 'close does not necessarily fsync'); "
+        "'the most recent flush' of a log is the most recent return of Logger.flush() ('Flush all log files'), Log.flush() or Log.close() "
+        "while its file was open (Log.cycle goes through them; Logger docstring: STOP 'closes log files needed to flush caches', Log.close: 'close does not necessarily fsync'); "
         "a record is 'written' when Log hands it to file.write(); the obligation covers every record written before that point, in "
         "whichever retained file it now lives",
         "a copy overwritten in the oldest slot (name + two-digit keep index) is dropped by design; overwriting any other copy that "
